@@ -61,6 +61,16 @@ def _functions_referenced(model):
 def check_result(ctx, case, entry, opts, as_ir, m2, wf_batch, stats):
     """Structural checks of one result (everything except the Coq-evaluated checkers, which are batched)."""
     doc = lambda extra=None: K.replay_doc(case, entry, opts, as_ir, extra)  # noqa: E731
+    # a graph output that lost its declared type (the checker failure and the signature change below are its consequences)
+    t0 = {o.name: o.type.tensor_type.elem_type for o in case.model.graph.output if o.type.HasField("tensor_type")}
+    lost = [o.name for o in m2.graph.output if t0.get(o.name) and not (o.type.HasField("tensor_type") and o.type.tensor_type.elem_type)]
+    if lost:
+        stage = K.attribute_stage(case, entry, opts, as_ir,
+                                  lambda mm: any(not (o.type.HasField("tensor_type") and o.type.tensor_type.elem_type) for o in mm.graph.output))
+        ctx.violation(f"C04:graph-output-type-lost:{stage}", f"{entry} (opts={opts}): graph outputs {lost} lost their declared type; the result fails onnx.checker",
+                      doc({"outputs": lost}))
+        stats["violations"] += 1
+        return
     try:
         onnx.checker.check_model(m2)
     except Exception as e:
@@ -70,7 +80,11 @@ def check_result(ctx, case, entry, opts, as_ir, m2, wf_batch, stats):
             cul = K.culprit(case.model, R.apply_entry(e2, case.model, opts if e2 in ("fold_constants", "optimize", "optimize_ir") else None, as_ir))
         except Exception:
             cul = K.culprit(case.model, m2)
-        ctx.violation(f"C04:checker:{stage}:{cul}:{_norm_msg(e)}", f"result of {entry} fails onnx.checker: {str(e)[:200]}", doc({"checker": str(e)[:300]}))
+        structural = K.known_structural_class(case.model, m2)
+        if structural is not None:
+            ctx.violation("C04:" + structural, f"result of {entry} fails onnx.checker: {str(e)[:200]}", doc({"checker": str(e)[:300]}))
+        else:
+            ctx.violation(f"C04:checker:{stage}:{cul}:{_norm_msg(e)}", f"result of {entry} fails onnx.checker: {str(e)[:200]}", doc({"checker": str(e)[:300]}))
         stats["violations"] += 1
     d = R.signature_diff(case.model, m2)
     if d is not None:
@@ -82,10 +96,18 @@ def check_result(ctx, case, entry, opts, as_ir, m2, wf_batch, stats):
     if missing:
         ctx.violation(f"C04:function-removed-but-referenced:{entry}", f"{entry}: functions {missing} are still called but were removed", doc())
         stats["violations"] += 1
-    wf_batch.append((case, entry, opts, as_ir, graphlit.graph_lit(_sub_inits_as_constants(case.model).graph),
-                     graphlit.imports_lit(case.model.opset_import),
-                     graphlit.graph_lit(_sub_inits_as_constants(m2).graph), graphlit.imports_lit(m2.opset_import),
-                     [graphlit.function_lit(f) for f in m2.functions]))
+    g0 = graphlit.graph_lit(_sub_inits_as_constants(case.model).graph)
+    g2 = graphlit.graph_lit(_sub_inits_as_constants(m2).graph)
+    im0, im2 = graphlit.imports_lit(case.model.opset_import), graphlit.imports_lit(m2.opset_import)
+    funs2 = [graphlit.function_lit(f) for f in m2.functions]
+    sig = (g0, g2, im0, im2, tuple(funs2))
+    if (g0, im0) == (g2, im2) and not funs2:
+        stats["wf-skipped-unchanged-result"] += 1          # nothing to check: the result is the original graph
+    elif sig in wf_batch.seen:
+        stats["wf-skipped-duplicate"] += 1
+    else:
+        wf_batch.seen.add(sig)
+        wf_batch.append((case, entry, opts, as_ir, g0, im0, g2, im2, funs2))
     # initializer-inputs: default still there, and same outputs for override values
     if case.overridable and entry in ("optimize", "optimize_ir", "fold_constants"):
         stats["overridable-runs"] += 1
@@ -109,7 +131,12 @@ def check_result(ctx, case, entry, opts, as_ir, m2, wf_batch, stats):
                     for a, b in zip(o0, o2):
                         dd = R.compare_outputs(a, b, case.exact)
                         if dd is not None:
-                            for op in _changed_consumers(case.model, m2, [n for n, _, _ in case.overridable]) or ["unknown"]:
+                            names = [n for n, _, _ in case.overridable]
+                            ops = _const_reading_consumers(case.model, names)
+                            if not ops:
+                                # no partial evaluator reads these inputs: the generic folding path must have baked the default in
+                                ops = ["generic:" + ",".join(_changed_consumers(case.model, m2, names) or ["unknown"])]
+                            for op in ops:
                                 ctx.violation(f"C04:initializer-input:folded:{op}",
                                               f"{entry}: the default of an initializer-input was baked into its consumer {op}: with override values "
                                               f"the optimized model differs: {dd}",
@@ -202,6 +229,28 @@ def _apply_renaming(g, ren):
     uses(g, set())
 
 
+# (op, input position) at which a registered partial evaluator reads a constant value
+_CONST_READING = {("If", 0), ("Dropout", 1), ("Dropout", 2), ("Reshape", 1), ("Expand", 1), ("Gather", 1), ("SequenceAt", 1),
+                  ("SplitToSequence", 1)}
+
+
+def _const_reading_consumers(orig, names):
+    """op types of the nodes of `orig` that read one of `names` at a position where a partial evaluator of the folder looks
+    at the constant value (the known way in which the default of an initializer-input gets baked in)."""
+    res = set()
+
+    def walk(g):
+        for n in g.node:
+            for k, i in enumerate(n.input):
+                if i in names and (n.op_type, k) in _CONST_READING:
+                    res.add(n.op_type)
+            for a in n.attribute:
+                if a.type == onnx.AttributeProto.GRAPH:
+                    walk(a.g)
+    walk(orig.graph)
+    return sorted(res)
+
+
 def _changed_consumers(orig, opt, names):
     """op types of the nodes of `orig` (nested graphs included) that consume one of `names` and are no longer there
     (same first output produced by the same op) in `opt`."""
@@ -220,6 +269,78 @@ def _changed_consumers(orig, opt, names):
     return sorted(res)
 
 
+_CUSTOM_RULES = None
+
+
+def custom_domain_rules():
+    """Rewrite rules whose replacement lives in a domain the model does not import yet (what the ORT fusions do):
+    Abs -> verif.custom::VerifAbs, Neg -> verif.custom::VerifNeg.  Used to observe _update_opset_imports for matches in
+    the main graph, in functions and inside If / Loop bodies."""
+    global _CUSTOM_RULES
+    if _CUSTOM_RULES is None:
+        from onnxscript.rewriter import pattern
+        _CUSTOM_RULES = [
+            pattern.RewriteRule(lambda op, x: op.Abs(x), lambda op, x: op.VerifAbs(x, _domain="verif.custom")),
+            pattern.RewriteRule(lambda op, x: op.Neg(x), lambda op, x: op.VerifNeg(x, _domain="verif.custom")),
+        ]
+    return _CUSTOM_RULES
+
+
+def check_custom_domain(ctx, case, stats):
+    """rewrite(model, pattern_rewrite_rules=<rules introducing a new domain>): every domain used by the result must be imported."""
+    from onnxscript import rewriter
+
+    def domains(g, acc, depth, where):
+        for n in g.node:
+            if n.domain not in ("", "ai.onnx"):
+                acc.add(n.domain)
+                where.add("subgraph" if depth else "main")
+            for a in n.attribute:
+                if a.type == onnx.AttributeProto.GRAPH:
+                    domains(a.g, acc, depth + 1, where)
+        return acc
+    m = onnx.ModelProto()
+    m.CopyFrom(case.model)
+    try:
+        m2 = rewriter.rewrite(m, pattern_rewrite_rules=custom_domain_rules())
+    except Exception as e:
+        t, site, msg = R.root_cause(e)
+        ctx.violation(f"C04:raises:{t}:{site}", f"rewrite with a custom-domain rule raised {t} at {site}: {msg}",
+                      K.replay_doc(case, "rewrite-custom-domain", None, False))
+        stats["raised"] += 1
+        return
+    where = set()
+    used = domains(m2.graph, set(), 0, where)
+    imported = {o.domain for o in m2.opset_import}
+    fmissing = []
+    for f in m2.functions:
+        fimp = {o.domain for o in f.opset_import}
+        for n in f.node:
+            if n.domain not in ("", "ai.onnx"):
+                where.add("function")
+                if n.domain not in fimp:
+                    fmissing.append(f"{f.name}:{n.domain}")
+    if fmissing:
+        ctx.violation("C04:opset-import-missing:function-body",
+                      f"rewrite(): function bodies use domains without an opset import in the function: {sorted(set(fmissing))[:4]}",
+                      K.replay_doc(case, "rewrite-custom-domain", None, False, {"missing": fmissing[:10]}))
+        stats["violations"] += 1
+    if "verif.custom" in used or "function" in where:
+        stats["custom-domain-rule-fired"] += 1
+        for w in where:
+            stats["custom-domain-rule-fired-in-" + w] += 1
+        ctx.case(("custom-domain", tuple(sorted(where))))
+    missing = sorted(d for d in used if d not in imported)
+    if missing:
+        ctx.violation("C04:opset-import-missing:" + ",".join(sorted(w for w in where if w != "function")),
+                      f"rewrite(): the result uses domains {missing} without an opset import (rule fired in: {sorted(where)})",
+                      K.replay_doc(case, "rewrite-custom-domain", None, False, {"missing": missing}))
+        stats["violations"] += 1
+
+
+_shadowing = K.shadowing
+
+
 def _checker_fails(m):
     try:
         onnx.checker.check_model(m)
@@ -232,8 +353,8 @@ def eval_wf(ctx, wf_batch, stats):
     """wf_graphb / imports_ok (Graph/Wf.v) inside Coq on the original and on the real result of every run."""
     if not wf_batch:
         return
-    for start in range(0, len(wf_batch), 150):
-        chunk = wf_batch[start:start + 150]
+    for start in range(0, len(wf_batch), 250):
+        chunk = wf_batch[start:start + 250]
         defs = []
         for i, (_c, _e, _o, _a, g0, im0, g2, im2, funs) in enumerate(chunk):
             defs.append(f"Definition o_{i} : graph := {g0}.\nDefinition r_{i} : graph := {g2}.\n"
@@ -254,13 +375,29 @@ def eval_wf(ctx, wf_batch, stats):
         for which, name in ((0, "wf_graphb"), (1, "imports_ok")):
             for i in parse_nat_list(vals[which]):
                 case, entry, opts, as_ir = chunk[i][:4]
+                shadow = []
                 try:
                     m2 = R.apply_entry(entry, case.model, opts, as_ir)
                     cul = K.culprit(case.model, m2)
+                    shadow = _shadowing(m2) if name == "wf_graphb" and not _shadowing(case.model) else []
                 except Exception:
                     cul = "?"
-                ctx.violation(f"C04:{name}:{entry}:{cul}", f"{name} holds for the original model but not for the result of {entry} (opts={opts})",
-                              K.replay_doc(case, entry, opts, as_ir))
+                structural = None
+                try:
+                    structural = K.known_structural_class(case.model, m2)
+                except Exception:
+                    pass
+                if structural is not None and not shadow:
+                    ctx.violation("C04:" + structural, f"{name} holds for the original model but not for the result of {entry}",
+                                  K.replay_doc(case, entry, opts, as_ir))
+                elif shadow:
+                    stage = K.attribute_stage(case, entry, opts, as_ir, lambda mm: bool(_shadowing(mm)))
+                    ctx.violation(f"C04:{stage}:fresh-name-shadows-enclosing-graph-value",
+                                  f"{entry}: a value defined in a subgraph of the result has the name of a value of an enclosing graph ({shadow[:3]})",
+                                  K.replay_doc(case, entry, opts, as_ir, {"shadowing": shadow[:10]}))
+                else:
+                    ctx.violation(f"C04:{name}:{entry}:{cul}", f"{name} holds for the original model but not for the result of {entry} (opts={opts})",
+                                  K.replay_doc(case, entry, opts, as_ir))
                 stats["violations"] += 1
 
 
@@ -295,7 +432,10 @@ def run(ctx):
     stats = collections.Counter()
     discards = collections.Counter()
     exc_kinds = collections.Counter()
-    wf_batch = []
+    class _Batch(list):
+        pass
+    wf_batch = _Batch()
+    wf_batch.seen = set()
 
     def one_case(c, plan):
         for entry, opts, as_ir in plan:
@@ -328,6 +468,8 @@ def run(ctx):
         if not quick:
             plan += [("optimize_ir", R.option_tuples(rng, 2)[1], True), ("optimize", R.option_tuples(rng, 2)[1], True)]
         one_case(c, plan)
+        if stats["valid-dag-models"] % 2 == 0:
+            check_custom_domain(ctx, c, stats)
         if stats["valid-dag-models"] == 2:
             ctx.sample({"ident": c.ident, "features": c.features, "overridable": [n for n, _, _ in c.overridable]})
     n_lift = 50 if quick else None
